@@ -8,7 +8,8 @@ connections) by any sequence of enabled actions -/
 inductive Reachable (v : Variant) : State → Prop where
   | init (heads : List Nat) (best : Option Nat) (targets : List Nat) (pubs : List (Nat × Nat))
       (strategy : PoolSelect.Strategy) (rtts : List Int)
-      (hp : ∀ p ∈ pubs, p.1 < heads.length ∧ p.2 < 2 ^ 32) (hh : ∀ h ∈ heads, h < 2 ^ 32) :
+      (hp : ∀ p ∈ pubs, p.1 < heads.length ∧ p.2 < 2 ^ 32) (hh : ∀ h ∈ heads, h < 2 ^ 32)
+      (hb : ∀ c, best = some c → c < heads.length) :
       Reachable v (mkInit heads best targets pubs strategy rtts)
   | step {s s' : State} {a : Action} : Reachable v s → step v s a = some s' → Reachable v s'
 
@@ -20,8 +21,8 @@ def WPc.registered : WPc → Bool
 
 /-- Run holds the pool's write lock (inside updateBest) -/
 def _root_.Tongo.PoolSM.RunPc.lockW : RunPc → Bool
-  | .ubRead _ _ => true
-  | .ubSel _ _ _ => true
+  | .ubRead _ _ _ => true
+  | .ubSel _ _ _ _ => true
   | .nLoop sw _ _ => sw
   | .nPut sw _ _ _ _ => sw
   | _ => false
@@ -128,7 +129,7 @@ theorem invA_init (heads best targets pubs st rtts) : InvA (mkInit heads best ta
 
 theorem reachable_invA {v s} (h : Reachable v s) : InvA s := by
   induction h with
-  | init heads best targets pubs st rtts hp hh => exact invA_init ..
+  | init heads best targets pubs st rtts hp hh hb => exact invA_init ..
   | step _ hs ih => exact invA_step ih hs
 
 end Tongo.PoolSM
